@@ -533,7 +533,15 @@ def algo_models(ctx, which=None):
     """Design level: the transcribed procedures (Algo.tla) on GF(4) and GF(16): encoders = closed form for every
     poison value, decoders restore every sufficient subset, primitive schedules agree on the determined region."""
     model_must_hold(ctx, "MC_Algo", "MC_Algo_2.cfg", workers=4)
-    model_must_hold(ctx, "MC_Algo", "MC_Algo_4_full.cfg" if ctx.thorough else "MC_Algo_4.cfg", workers=8, timeout=3600)
+    model_must_hold(ctx, "MC_Algo", "MC_Algo_4_corners.cfg", workers=4)
+    if not ctx.thorough:
+        model_must_hold(ctx, "MC_Algo", "MC_Algo_4.cfg", workers=8)
+    else:
+        # all 170 configurations of GF(16); GF(256): all configurations with k+r<=13, and the staircase corners /
+        # chunk edges of the GF(256) envelope (up to 16 chunks) at maximum loss
+        model_must_hold(ctx, "MC_Algo", "MC_Algo_4_full.cfg", workers=8, timeout=3600)
+        model_must_hold(ctx, "MC_Algo", "MC_Algo_8_full.cfg", workers=8, timeout=5400)
+        model_must_hold(ctx, "MC_Algo", "MC_Algo_8_corners.cfg", workers=8, timeout=5400)
 
 
 def prim_models(ctx):
